@@ -137,8 +137,17 @@ def spec_var_roles(spec):
     if spec[0] == "assign":
         if spec[2] is not None:
             acc[spec[1]] = "arr"
-        for i, lo, hi in spec[4]:
+        loops = spec[4]
+        for i, lo, hi in loops:
             acc.pop(i, None)
+        # a bound is evaluated when only the OUTER counters are bound: a bound
+        # that names its own or an inner counter reads that name from the
+        # incoming store
+        for k, (i, lo, hi) in enumerate(loops):
+            later = {j for j, _, _ in loops[k:]}
+            for n in set(dsl_vars(lo)) | set(dsl_vars(hi)):
+                if n in later:
+                    acc[n] = "num"
     return acc
 
 
